@@ -26,6 +26,11 @@ def run_variant(v, build=False, keep=False):
     res = dict(prop=v["prop"], name=v["name"], kind=v["kind"], rule=v.get("rule", ""))
     try:
         subprocess.run(["rsync", "-a", "--exclude", ".git", "--exclude", "/docs", REPO + "/", scratch + "/"], check=True)
+        if v.get("base"):
+            b = subprocess.run(["git", "apply", os.path.join(VERIF, v["base"])], cwd=scratch, capture_output=True, text=True)
+            if b.returncode != 0:
+                res["status"] = "stale"; res["detail"] = "base patch does not apply: " + b.stderr[-200:]
+                return res
         for (f, old, new) in v["edits"]:
             p = os.path.join(scratch, f)
             s = open(p).read()
